@@ -95,8 +95,8 @@ def typed_structure(draw, min_atoms=1, max_atoms=8, tag_base=0, cell="lammps", t
             seen.add(key)
             spec[kind + "s"].append(t)
             spec[kind + "_types"].append(draw(st.integers(0, ntt - 1)))
-        if extras and kind != "improper" and draw(st.booleans()):
-            k = draw(st.integers(1, 2))
+        if extras and draw(st.booleans()):
+            k = draw(st.integers(1, len(XLABELS[kind])))
             spec["extra_%s_labels" % kind] = XLABELS[kind][:k]
             spec["extra_%s_fields" % kind] = [[draw(st.sampled_from(XVALUES)) for _ in range(k)] for _ in spec[kind + "s"]]
     return spec
